@@ -69,3 +69,22 @@ Definition http_case_cuts (c : cfg) (resp headreq close : bool) (data : bytes) (
   http_case c resp headreq close (cut_pieces data lens).
 Definition sse_case_cuts (maxl : Z) (data : bytes) (lens : list Z) : bytes :=
   sse_case maxl (cut_pieces data lens).
+
+(* a reused parser over a stream of messages: the completed messages, then the current state *)
+Definition sess_obs (k : (pst * list pst) * bytes) : bytes :=
+  enc_list (fun s => http_obs (s, [])) (snd (fst k)) ++ http_obs (fst (fst k), snd k).
+Definition sess_case_cuts (c : cfg) (resp headreq : bool) (data : bytes) (lens : list Z) : bytes :=
+  sess_obs (sess_feed_all c resp headreq (sess_init resp headreq) (cut_pieces data lens)).
+
+(* session observation: for a current parser that has not completed a head yet only the
+   unconsumed bytes are observable (the object's other fields still show the previous message
+   until parseHead / parseBody overwrite them) *)
+Definition cur_obs (k : pst * bytes) : bytes :=
+  match p_stage (fst k) with
+  | SStart _ | SContinue _ | SLeader _ => [0] ++ enc_b (snd k)
+  | _ => http_obs k
+  end.
+Definition sess_obs2 (k : (pst * list pst) * bytes) : bytes :=
+  enc_list (fun s => http_obs (s, [])) (snd (fst k)) ++ cur_obs (fst (fst k), snd k).
+Definition sess_case2 (c : cfg) (resp headreq : bool) (data : bytes) (lens : list Z) : bytes :=
+  sess_obs2 (sess_feed_all c resp headreq (sess_init resp headreq) (cut_pieces data lens)).
